@@ -329,7 +329,60 @@ func flagBlock(cond ssa.Value) *ssa.BasicBlock {
 	if phi, ok := cond.(*ssa.Phi); ok {
 		return phi.Block()
 	}
+	if phi, _ := nilTestOfPhi(cond); phi != nil {
+		return phi.Block()
+	}
 	return nil
+}
+
+// nilTestOfPhi: cond is `phi == nil` / `phi != nil` for a phi of interface or
+// pointer values (typically the error result of an inlined helper); returns
+// the phi and whether the comparison is ==.
+func nilTestOfPhi(cond ssa.Value) (*ssa.Phi, bool) {
+	bo, ok := cond.(*ssa.BinOp)
+	if !ok || (bo.Op != token.EQL && bo.Op != token.NEQ) {
+		return nil, false
+	}
+	x, y := bo.X, bo.Y
+	if isNilConst(x) {
+		x, y = y, x
+	}
+	if !isNilConst(y) {
+		return nil, false
+	}
+	phi, ok := x.(*ssa.Phi)
+	if !ok {
+		return nil, false
+	}
+	return phi, bo.Op == token.EQL
+}
+
+// provablyNonNilAt: value v is known to be non-nil at the end of block p
+// (a fresh error, or guarded there by a dominating v != nil test).
+func provablyNonNilAt(v ssa.Value, p *ssa.BasicBlock) bool {
+	if call, ok := v.(*ssa.Call); ok {
+		if f := call.Call.StaticCallee(); f != nil {
+			switch calleeFullName(f) {
+			case "errors.New", "fmt.Errorf":
+				return true
+			}
+		}
+	}
+	facts := dominatingFactsPlain(nil, p)
+	for _, ft := range facts {
+		bo, ok := ft.Cond.(*ssa.BinOp)
+		if !ok || (bo.Op != token.EQL && bo.Op != token.NEQ) {
+			continue
+		}
+		x, y := bo.X, bo.Y
+		if isNilConst(x) {
+			x, y = y, x
+		}
+		if x == v && isNilConst(y) && (bo.Op == token.NEQ) == ft.Val {
+			return true
+		}
+	}
+	return false
 }
 
 // phiBoolSource: cond is a phi in block d whose value val can only have been
@@ -348,6 +401,25 @@ func phiBoolSource(cond ssa.Value, val bool, d *ssa.BasicBlock) *ssa.BasicBlock 
 func phiBoolSourceX(cond ssa.Value, val bool, d *ssa.BasicBlock) (*ssa.BasicBlock, ssa.Value, bool) {
 	if u, ok := cond.(*ssa.UnOp); ok && u.Op == token.NOT {
 		cond, val = u.X, !val
+	}
+	if nphi, isEq := nilTestOfPhi(cond); nphi != nil && (nphi.Block() == d || nphi.Block().Dominates(d)) {
+		// a nil test of a phi of errors/pointers: the known nilness selects the edge
+		wantNil := isEq == val
+		var src *ssa.BasicBlock
+		n := 0
+		for i, e := range nphi.Edges {
+			p := nphi.Block().Preds[i]
+			isNil := isNilConst(e)
+			nonNil := !isNil && provablyNonNilAt(e, p)
+			if (wantNil && !nonNil) || (!wantNil && !isNil) {
+				n++
+				src = p
+			}
+		}
+		if n == 1 {
+			return src, nil, false
+		}
+		return nil, nil, false
 	}
 	phi, ok := cond.(*ssa.Phi)
 	if !ok || (phi.Block() != d && !phi.Block().Dominates(d)) {
@@ -740,6 +812,62 @@ func splitReturn(r *ssa.Return, b *ssa.BasicBlock, results []ssa.Value, depth in
 			vr.Edge = &EdgeFact{ifi.Cond, p.Succs[0] == b, p}
 		}
 		out = append(out, vr)
+	}
+	return out
+}
+
+// valueUnderFlags: v is a phi that travels together with a boolean flag (the
+// `value, ok` pair of an inlined helper): if a branch on the flag that
+// dominates block `at` determines which predecessor the phi's block was
+// entered from, the phi has that edge's value there.  Otherwise v is returned
+// unchanged.
+func valueUnderFlags(v ssa.Value, at *ssa.BasicBlock) ssa.Value {
+	for depth := 0; depth < 4; depth++ {
+		phi, ok := v.(*ssa.Phi)
+		if !ok {
+			return v
+		}
+		pb := phi.Block()
+		next := ssa.Value(nil)
+		for d := at; d != nil; d = d.Idom() {
+			// plain dominating branch facts of `at`
+			for _, f := range dominatingFactsPlain(d, at) {
+				if flagBlock(f.Cond) != pb {
+					continue
+				}
+				if src, _, _ := phiBoolSourceX(f.Cond, f.Val, f.From); src != nil {
+					for i, p := range pb.Preds {
+						if p == src {
+							next = phi.Edges[i]
+						}
+					}
+				}
+			}
+			break
+		}
+		if next == nil {
+			return v
+		}
+		v = next
+	}
+	return v
+}
+
+// dominatingFactsPlain: the branch facts that hold in block b (no flag threading).
+func dominatingFactsPlain(_ *ssa.BasicBlock, b *ssa.BasicBlock) []EdgeFact {
+	var out []EdgeFact
+	for d := b.Idom(); d != nil; d = d.Idom() {
+		ifi, ok := lastInstr(d).(*ssa.If)
+		if !ok || len(d.Succs) != 2 || d.Succs[0] == d.Succs[1] {
+			continue
+		}
+		t, f := d.Succs[0], d.Succs[1]
+		td, fd := edgeDominates(d, t, b), edgeDominates(d, f, b)
+		if td && !fd {
+			out = append(out, EdgeFact{ifi.Cond, true, d})
+		} else if fd && !td {
+			out = append(out, EdgeFact{ifi.Cond, false, d})
+		}
 	}
 	return out
 }
